@@ -830,7 +830,7 @@ def gen_bracket(rng):
     return s
 
 
-def gen_slider_joint(rng):
+def gen_slider_joint(rng, lk=None):
     """A loaded beam A-J followed by a bar that ENDS in J with a link that releases the x movement there ({dy rz}, {dy} or {rz}):
     the later bar's end has a fresh x number next to the joint's own y / rotation numbers, which already carry the beam's loads."""
     s = Structure()
@@ -842,11 +842,12 @@ def gen_slider_joint(rng):
     s.nodes["C"] = (ox + 4 * a, oy - 3 * a, (True, True, True))
     mat, sec = rng.choice(list(s.mats)), rng.choice(list(s.secs))
     s.bars.append({"id": "b1", "n1": "A", "l1": LINKS["rigid"], "n2": "J", "l2": LINKS["rigid"], "mat": mat, "sec": sec})
-    lk = rng.choice(["slide_x", "only_dy", "only_rz"])
+    lk = lk or rng.choice(["slide_x", "only_dy", "only_rz"])
     s.bars.append({"id": "b2", "n1": "C", "l1": LINKS["rigid"], "n2": "J", "l2": LINKS[lk], "mat": mat, "sec": sec})
     s.loads = [{"kind": "d", "term": "fy", "local": True, "bar": "b1", "t0": Fr(0), "v0": Fr(-rng.choice([3, 12])), "t1": Fr(1), "v1": Fr(-rng.choice([3, 20]))},
                {"kind": "c", "term": "mz", "local": True, "bar": "b1", "t": Fr(1), "v": Fr(rng.choice([-5000, 12000]))}]
-    if rng.random() < 0.5:
+    if lk != "slide_x" or rng.random() < 0.5:
+        # (with two movements released at its end the second bar bends under a load of its own: the released movements are not zero)
         s.loads.append({"kind": "d", "term": "fy", "local": True, "bar": "b2", "t0": Fr(0), "v0": Fr(2), "t1": Fr(1), "v1": Fr(5)})
     s.meta = {"kind": "slider-joint/" + lk}
     return s
@@ -872,4 +873,20 @@ def gen_pin_first_joint(rng):
     s.loads = [{"kind": "d", "term": "fy", "local": True, "bar": "b2", "t0": Fr(0), "v0": v, "t1": Fr(1), "v1": v * rng.choice([1, 2])},
                {"kind": "c", "term": "fx", "local": False, "bar": "b3", "t": Fr(1), "v": Fr(rng.choice([300, -800]))}]
     s.meta = {"kind": "pin_first_joint"}
+    return s
+
+
+def gen_many_positions(rng, npos=14, ndist=0):
+    """One bending bar cut in many unequal finite elements: npos concentrated loads at distinct positions off the even tenths
+    (and ndist partial distributed loads): 11 + npos nodes or more - past every small fixed size (16, 24, 32 ...) for npos >= 22."""
+    s = gen_beam(rng)
+    b = s.bars[0]
+    pool = ["0.03", "0.07", "0.13", "0.17", "0.23", "0.27", "0.31", "0.37", "0.43", "0.47", "0.53", "0.57", "0.61", "0.67", "0.73", "0.77", "0.83",
+            "0.87", "0.93", "0.97", "0.115", "0.255", "0.345", "0.455", "0.565", "0.655", "0.745", "0.855", "0.945", "0.025"]
+    ts = [Fr(t) for t in pool[:npos]]
+    s.loads = [{"kind": "c", "term": ["fy", "fx", "mz", "fy"][k % 4], "local": k % 3 != 0, "bar": b["id"], "t": t, "v": Fr((-1) ** k * (50 + 13 * k))} for k, t in enumerate(ts)]
+    for k in range(ndist):
+        t0 = Fr(k, 2 * ndist) + Fr(1, 100)
+        s.loads.append({"kind": "d", "term": ["fy", "fx"][k % 2], "local": True, "bar": b["id"], "t0": t0, "v0": Fr(-3 - k), "t1": t0 + Fr(2, 5 * max(1, ndist)) + Fr(3, 1000), "v1": Fr(-1 - 2 * k)})
+    s.meta = {"kind": "many-positions/%d+%d" % (npos, ndist)}
     return s
